@@ -361,6 +361,54 @@ func driveWire(c *ctx) {
 			}
 		}
 	}
+	// length octets taken at their word (round 8): in a skeleton of every total length 9..75 and (sampled) R length, each of the three
+	// length octets - total, R, S; the S octet may be the very last byte of the string - takes values around the right one, around the
+	// 73 / 33 byte limits, at the sign bit and at the top of the octet.  Arithmetic on these octets in a type narrower than int wraps.
+	lenVals := []int{0, 1, 2, 0x20, 0x21, 0x22, 0x45, 0x46, 0x47, 0x48, 0x49, 0x4a, 0x7e, 0x7f, 0x80, 0x81, 0xf0, 0xf8, 0xf9, 0xfa, 0xfb, 0xfc, 0xfd, 0xfe, 0xff}
+	for L := 9; L <= 75; L++ {
+		for lenR := 0; lenR <= L-4; lenR++ {
+			edge := lenR <= 2 || lenR >= L-9
+			if !edge && !c.thorough() && (L+lenR)%4 != int(c.seed%4) {
+				continue
+			}
+			base := bytes.Repeat([]byte{0x11}, L)
+			base[0], base[1], base[2], base[3] = 0x30, byte(L-3), 0x02, byte(lenR)
+			if lenR > 0 {
+				base[4] = 0x01
+			}
+			sPos := 5 + lenR
+			if 4+lenR < L {
+				base[4+lenR] = 0x02
+			}
+			if sPos < L {
+				lenS := L - 7 - lenR
+				if lenS < 0 {
+					lenS = 0
+				}
+				base[sPos] = byte(lenS)
+			}
+			if sPos+1 < L-1 {
+				base[sPos+1] = 0x01
+			}
+			if sPos < L-1 {
+				base[L-1] = 0x01 // sighash
+			}
+			for _, pos := range []int{1, 3, sPos} {
+				if pos >= L {
+					continue
+				}
+				right := int(base[pos])
+				for _, v := range append(append([]int{}, lenVals...), right-1, right, right+1) {
+					if v < 0 || v > 255 {
+						continue
+					}
+					b := append([]byte{}, base...)
+					b[pos] = byte(v)
+					bip(b)
+				}
+			}
+		}
+	}
 	// the repository's BIP-66 vector file
 	if raw, err := os.ReadFile(filepath.Join(c.repo, "secec", "bitcoin", "testdata", "bip-0066-test-vectors.json")); err == nil {
 		var doc struct {
